@@ -65,7 +65,7 @@ func c13Expand(tmpl, escPath, query, host, strip, prepend string) (string, bool)
 
 func TestVerifC13Inputs(t *testing.T) {
 	L := ev.Begin("C13", "c13-inputs", "exploration",
-		"13 redirect templates (every form of docs/http-redirects.md and target_test.go, with/without own query, $host, $path with and without separating slash) x request path (incl. %2F, %20, %C3%A4, strip-prefix-only) x query x host (with/without port) x strip x prepend x code (301,302,303,307,308 valid; 299,400,abc invalid) x request kind (plain, websocket upgrade, event stream), served by the real HTTPProxy.ServeHTTP; oracle: status, Location = independent expansion on the escaped path, upstream never contacted; invalid codes never redirect. non-trivial = template with $path or $host")
+		"13 redirect templates (every form of docs/http-redirects.md and target_test.go, with/without own query, $host, $path with and without separating slash) x request path (incl. %2F, %20, %C3%A4, strip-prefix-only) x query x host (with/without port) x strip x prepend x code (301,302,303,307,308 valid; 299,400,abc invalid) x request kind (plain, websocket upgrade, event stream), served by the real HTTPProxy.ServeHTTP; oracle: status, Location = independent expansion on the escaped path, upstream never contacted; invalid codes never redirect, every code 300..399 answers with that code, path-changing redirects on the own host are issued. non-trivial = template with $path or $host")
 	paths := []string{"/", "/a", "/a/b", "/a%2Fb", "/a%20b", "/%C3%A4", "/s", "/s/a", "/s/a%2Fb"}
 	queries := []string{"", "q=1", "q=1&r=%2F"}
 	hosts := []string{"foo.com", "foo.com:8080"}
@@ -178,6 +178,50 @@ func TestVerifC13Inputs(t *testing.T) {
 		L.Case()
 		if rec.Code >= 300 && rec.Code < 400 {
 			L.Violation("invalid-redirect-code-still-redirects", map[string]interface{}{"code": code, "status": rec.Code})
+		}
+	}
+	// every code of the documented range 300-399 redirects with exactly that code
+	for code := 300; code <= 399; code++ {
+		r.setTable(fmt.Sprintf("route add redir foo.com/ https://t.example/$path opts \"redirect=%d\"\nroute add app / http://%s/\n", code, r.upAddr))
+		r.script = script{status: 200, chunks: [][]byte{[]byte("app")}}
+		rec, _, hits, err := r.do(rawRequest("GET", "/a?x=1", "foo.com", nil, nil, false), "10.9.8.7:4711", nil)
+		if err != nil {
+			panic(err)
+		}
+		L.Case()
+		L.NontrivialKey(fmt.Sprint("code", code))
+		if rec.Code != code || rec.Header().Get("Location") != "https://t.example/a?x=1" || hits != 0 {
+			L.Violation("configured-3xx-code-not-answered-with-that-code", map[string]interface{}{"configured": code, "status": rec.Code, "location": rec.Header().Get("Location"), "upstream_hits": hits})
+		}
+	}
+	// a redirect that changes the path (strip / prepend) is not a self redirect, even when scheme and host stay
+	for _, sp := range [][2]string{{"strip=/a", "/a"}, {"prepend=/p", ""}, {"strip=/a prepend=/p", "/a"}} {
+		for _, xfp := range []string{"", "https"} {
+			for _, p := range []string{"/a/b", "/a/b%2Fc", "/a"} {
+				r.setTable("route add redir foo.com/ https://foo.com$path opts \"redirect=301 " + sp[0] + "\"\nroute add app / http://" + r.upAddr + "/\n")
+				r.script = script{status: 200, chunks: [][]byte{[]byte("app")}}
+				var hdr [][2]string
+				if xfp != "" {
+					hdr = [][2]string{{"X-Forwarded-Proto", xfp}}
+				}
+				rec, _, hits, err := r.do(rawRequest("GET", p, "foo.com", hdr, nil, false), "10.9.8.7:4711", nil)
+				if err != nil {
+					panic(err)
+				}
+				L.Case()
+				L.NontrivialKey("rewrite-self" + sp[0] + xfp + p)
+				prepend := ""
+				if strings.Contains(sp[0], "prepend=/p") {
+					prepend = "/p"
+				}
+				want, _ := c13Expand("https://foo.com$path", p, "", "foo.com", sp[1], prepend)
+				if want == "https://foo.com"+p {
+					continue // really points back
+				}
+				if rec.Code != 301 || rec.Header().Get("Location") != want || hits != 0 {
+					L.Violation("path-changing-redirect-taken-for-a-self-redirect", map[string]interface{}{"options": sp[0], "x_forwarded_proto": xfp, "request": p, "status": rec.Code, "location": rec.Header().Get("Location"), "want_location": want, "upstream_hits": hits})
+				}
+			}
 		}
 	}
 	// self redirect is skipped in favour of the next matching host: "own scheme, host and
